@@ -105,6 +105,9 @@ type PrefixScanPlan struct {
 	Filter  *FilterExec
 	Prefix  string
 	iter    Cursor
+	// eof is set once the scan has left the prefix region (or the data ended),
+	// later polls must not read further keys
+	eof bool
 }
 
 func NewPrefixScanPlan(s Storage, f *FilterExec, p string) Plan {
@@ -116,6 +119,7 @@ func NewPrefixScanPlan(s Storage, f *FilterExec, p string) Plan {
 }
 
 func (p *PrefixScanPlan) Init() (err error) {
+	p.eof = false
 	p.iter, err = p.Storage.Cursor()
 	if err != nil {
 		return err
@@ -125,17 +129,19 @@ func (p *PrefixScanPlan) Init() (err error) {
 
 func (p *PrefixScanPlan) Next(ctx *ExecuteCtx) ([]byte, []byte, error) {
 	pb := []byte(p.Prefix)
-	for {
+	for !p.eof {
 		key, val, err := p.iter.Next()
 		if err != nil {
 			return nil, nil, err
 		}
 		if key == nil {
+			p.eof = true
 			break
 		}
 
 		// Key not have the prefix
 		if !bytes.HasPrefix(key, pb) {
+			p.eof = true
 			break
 		}
 
@@ -161,6 +167,9 @@ func (p *PrefixScanPlan) Batch(ctx *ExecuteCtx) ([]KVPair, error) {
 		chooseIdxes = make([]int, 0, 2*PlanBatchSize)
 		bidx        = 0
 	)
+	if p.eof {
+		return nil, nil
+	}
 	for !finish {
 		filterBatch = filterBatch[:0]
 		for i := 0; i < PlanBatchSize; i++ {
@@ -170,11 +179,13 @@ func (p *PrefixScanPlan) Batch(ctx *ExecuteCtx) ([]KVPair, error) {
 			}
 			if key == nil {
 				finish = true
+				p.eof = true
 				break
 			}
 			// Key not have the prefix
 			if !bytes.HasPrefix(key, pb) {
 				finish = true
+				p.eof = true
 				break
 			}
 			filterBatch = append(filterBatch, NewKVP(key, val))
@@ -215,6 +226,9 @@ type RangeScanPlan struct {
 	Start   []byte
 	End     []byte
 	iter    Cursor
+	// eof is set once the scan has passed End (or the data ended),
+	// later polls must not read further keys
+	eof bool
 }
 
 func NewRangeScanPlan(s Storage, f *FilterExec, start []byte, end []byte) Plan {
@@ -227,6 +241,7 @@ func NewRangeScanPlan(s Storage, f *FilterExec, start []byte, end []byte) Plan {
 }
 
 func (p *RangeScanPlan) Init() (err error) {
+	p.eof = false
 	p.iter, err = p.Storage.Cursor()
 	if err != nil {
 		return err
@@ -241,17 +256,19 @@ func (p *RangeScanPlan) Init() (err error) {
 }
 
 func (p *RangeScanPlan) Next(ctx *ExecuteCtx) ([]byte, []byte, error) {
-	for {
+	for !p.eof {
 		key, val, err := p.iter.Next()
 		if err != nil {
 			return nil, nil, err
 		}
 		if key == nil {
+			p.eof = true
 			break
 		}
 
 		// Key is greater than End
 		if p.End != nil && bytes.Compare(key, p.End) > 0 {
+			p.eof = true
 			break
 		}
 
@@ -276,6 +293,9 @@ func (p *RangeScanPlan) Batch(ctx *ExecuteCtx) ([]KVPair, error) {
 		chooseIdxes = make([]int, 0, 2*PlanBatchSize)
 		bidx        = 0
 	)
+	if p.eof {
+		return nil, nil
+	}
 	for !finish {
 		filterBatch = filterBatch[:0]
 		for i := 0; i < PlanBatchSize; i++ {
@@ -285,11 +305,13 @@ func (p *RangeScanPlan) Batch(ctx *ExecuteCtx) ([]KVPair, error) {
 			}
 			if key == nil {
 				finish = true
+				p.eof = true
 				break
 			}
 			// Key is greater than End
 			if p.End != nil && bytes.Compare(key, p.End) > 0 {
 				finish = true
+				p.eof = true
 				break
 			}
 			filterBatch = append(filterBatch, NewKVP(key, val))
